@@ -301,3 +301,84 @@ Proof.
       { right. now apply all_ok_none. }
       unfold model_obs. rewrite Hcom. cbn [o_err o_assign o_owned]. rewrite E1, E2, E3. reflexivity.
 Qed.
+
+(* ---------- the retry loop ---------- *)
+Lemma assign_err_iff_fails cfg parts a :
+  a_err (assign cfg parts (at_com a) (at_wms a) (at_fail a)) = attempt_fails parts a.
+Proof.
+  unfold attempt_fails, assign. destruct (at_com a) as [|offs]; [reflexivity|].
+  destruct (all_ok (firstn (length parts) (at_wms a))) as [lh|] eqn:Hok.
+  - rewrite combine_firstn_r. rewrite (all_ok_map _ _ Hok). rewrite combine_map_r.
+    (* every asked watermark answered: calc returns Some *)
+    assert (H : exists l filed, calc cfg offs (map (fun x => (fst x, wok (snd x))) (combine parts lh)) = (Some l, filed)).
+    { generalize (combine parts lh). intros pl. induction pl as [|[p [l h]] pl IH]; cbn; [eauto|].
+      destruct IH as (l0 & f0 & E). rewrite E.
+      destruct (start_offset cfg (committed_of p offs) h) as [st rq]. eauto. }
+    destruct H as (l & filed & E). rewrite E. destruct (at_fail a); reflexivity.
+  - destruct (assign_error_aborts cfg parts (COk offs) (at_wms a) (at_fail a)) as (E & _).
+    { right. now apply all_ok_none. }
+    unfold assign in E. exact E.
+Qed.
+
+(* the loop makes exactly the prescribed number of attempts: it keeps trying after every failure, stops at the
+   first success, and stops when the revocation arrives *)
+Lemma retry_length cfg parts atts cancel :
+  length (retry cfg parts atts cancel) = expected_attempts parts atts cancel.
+Proof.
+  revert cancel; induction atts as [|a atts IH]; intros cancel; cbn [retry expected_attempts length]; [reflexivity|].
+  rewrite assign_err_iff_fails. destruct (attempt_fails parts a); [|reflexivity].
+  destruct cancel; [reflexivity|]. cbn [length]. now rewrite IH.
+Qed.
+
+(* every attempt but the last failed (so it assigned nothing to the recovery consumer); only the last can succeed *)
+Lemma retry_only_last_succeeds cfg parts atts cancel :
+  forall pre r post, retry cfg parts atts cancel = pre ++ r :: post -> post <> [] -> a_err r = true /\ a_owned r = None.
+Proof.
+  revert cancel; induction atts as [|a atts IH]; intros cancel pre r post E Hp; cbn [retry] in E.
+  - destruct pre; discriminate.
+  - remember (assign cfg parts (at_com a) (at_wms a) (at_fail a)) as r0 eqn:Er0.
+    destruct pre as [|x pre]; cbn in E.
+    + inversion E as [[E1 E2]]. subst r.
+      destruct (a_err r0) eqn:Ee; [|rewrite <- E2 in Hp; contradiction].
+      split; [reflexivity|].
+      (* a failed attempt never reaches SetAssignedPartitions *)
+      subst r0. unfold assign in *. destruct (at_com a) as [|offs]; [reflexivity|].
+      destruct (calc cfg offs (combine parts (at_wms a))) as [[l|] filed]; [|reflexivity].
+      destruct (at_fail a); [reflexivity|]. cbn in Ee. discriminate.
+    + inversion E as [[E1 E2]]. subst x. destruct (a_err r0); [|destruct pre; discriminate].
+      destruct cancel; [destruct pre; discriminate|]. eapply IH; eassumption.
+Qed.
+
+Lemma expected_attempts_pos parts a atts cancel : (0 < expected_attempts parts (a :: atts) cancel)%nat.
+Proof. cbn. lia. Qed.
+
+Theorem spec_c06_retry_sound i : spec_c06_retry i (model_robs i) = [].
+Proof.
+  unfold spec_c06_retry, model_robs. cbn [ro_calls ro_owned ro_assigns].
+  rewrite retry_length, Nat.eqb_refl. cbn [app].
+  set (rs := retry (r_cfg i) (r_parts i) (r_atts i) (r_cancel i)).
+  unfold last_owned. destruct (rev rs) as [|r rest] eqn:Er; [reflexivity|].
+  destruct (a_err r) eqn:Ee.
+  - destruct (recov (r_cfg i)); reflexivity.
+  - (* the successful last attempt: its owned list is its own Assign argument *)
+    assert (Hin : In r rs). { apply in_rev. rewrite Er. left. reflexivity. }
+    destruct (a_owned r) as [l|] eqn:Eo; [|reflexivity].
+    assert (Hr : a_assign r = Some l /\ recov (r_cfg i) = true).
+    { unfold rs in Hin. clear Er. revert Hin. generalize (r_cancel i). induction (r_atts i) as [|a atts IH]; intros c Hin; cbn [retry] in Hin; [contradiction|].
+      destruct Hin as [E|Hin].
+      - subst r. unfold assign in *. destruct (at_com a) as [|offs]; [discriminate|].
+        destruct (calc (r_cfg i) offs (combine (r_parts i) (at_wms a))) as [[l0|] filed]; [|discriminate].
+        destruct (at_fail a); [discriminate|]. cbn in Eo |- *. destruct (recov (r_cfg i)); [|discriminate].
+        inversion Eo; subst. auto.
+      - destruct (a_err (assign (r_cfg i) (r_parts i) (at_com a) (at_wms a) (at_fail a))); [|contradiction].
+        destruct c; [contradiction|]. eapply IH; eassumption. }
+    destruct Hr as [Ha Hrc]. rewrite Hrc, andb_true_r.
+    destruct l as [|x l]; [reflexivity|].
+    assert (Hex : existsb (fun a => list_eqb zz_eqb a (x :: l)) (opt_list (map a_assign rs)) = true).
+    { apply existsb_exists. exists (x :: l). split; [|apply list_eqb_refl, zz_eqb_refl].
+      clear -Hin Ha. induction rs as [|r0 rs IH]; [contradiction|]. cbn [map opt_list].
+      destruct Hin as [->|Hin].
+      - rewrite Ha. left. reflexivity.
+      - destruct (a_assign r0); [right|]; apply IH; exact Hin. }
+    rewrite Hex. reflexivity.
+Qed.
